@@ -20,8 +20,9 @@ CLAIMED["C11"] = dict(engine="payload", design="3 C11",
    technique="TLA+ transcriptions of queue allocation and payload.Bin model-checked with TLC; replay of every enumerated behaviour on the real code; TLC trace validation of observed chunks and payload headers")
 
 STAGE_NOTE = ("Trusted: TLC, the Json module, the hook package (one-line observation points at the durable steps of stage.Stage / fileutil), the harness's projection "
-  "(directory listing -> block tags by byte comparison, companion JSON, log lines, VerifSnapshot). Bounds: design 2 names x <=2 versions x 2 blocks, 3 (quick) / 4 (thorough) requests, "
-  "2 connections, 1 crash / 1 corruption / 2 cleanings / 1 cache expiry, protocol-following sender; code: each API call run to quiescence (interleavings inside the receiver are decided on the design only). "
+  "(directory listing -> block tags by byte comparison, companion JSON, log lines, VerifSnapshot). Bounds: design 2-3 names x <=2 versions x 2 blocks, 2 (quick) / 4 (thorough) requests, "
+  "2 connections, 1 crash / 1 corruption / 2 cleanings / 1 cache expiry, protocol-following sender; code: all single commands, focused exhaustive command sequences of depth 3-5 over the commands the property is about, "
+  "a seeded sample of -simulate walk prefixes (3000 scenarios per universe in the quick tier), each API call run to quiescence (interleavings inside the receiver are decided on the design only); crash points = the hook points (C06 also a second crash inside the following Recover). "
   "Model-found corner cases that the sequential harness cannot schedule (S19) or that are recorded as open findings (S9 S15 S20) are exempted by named KF_ switches; see known_findings.json and DESIGN.md section 5.")
 def stage_entry(design, text):
     return dict(engine="stage", design=design, text=text, note=STAGE_NOTE,
